@@ -1173,18 +1173,20 @@ void flush_instruction_cache(void* p, size_t size) noexcept {
 // ============================
 
 Info info() noexcept {
-  static std::atomic<uint32_t> vm_info_initialized;
-  static Info vm_info;
+  // Both members are packed into a single atomic value (page size in the low and page granularity in the high 32
+  // bits, zero means not detected yet) so threads that race to detect the information never access it non-atomically.
+  static std::atomic<uint64_t> vm_info_packed;
 
-  if (!vm_info_initialized.load()) {
+  uint64_t packed = vm_info_packed.load(std::memory_order_relaxed);
+  if (ASMJIT_UNLIKELY(packed == 0u)) {
     Info local_mem_info;
     detect_vm_info(local_mem_info);
 
-    vm_info = local_mem_info;
-    vm_info_initialized.store(1u);
+    packed = uint64_t(local_mem_info.page_size) | (uint64_t(local_mem_info.page_granularity) << 32);
+    vm_info_packed.store(packed, std::memory_order_relaxed);
   }
 
-  return vm_info;
+  return Info { uint32_t(packed & 0xFFFFFFFFu), uint32_t(packed >> 32) };
 }
 
 size_t large_page_size() noexcept {
